@@ -198,11 +198,11 @@ class Module(ABC):
 
         # intercepts calls to groups
         if key in self.base.groups:
-            view = (
-                self.select(self.groups[key])
-                if key in self.groups
-                else self.select(None)
-            )
+            # Use the group as it is now: a view can be older than the group, and
+            # `select(None)` would select everything.
+            group = self.base.groups[key]
+            in_view = group if self is self.base else np.intersect1d(group, self._nodes_in_view)
+            view = self.select(in_view)
             view._set_controlled_by_param(key)
             return view
 
